@@ -286,6 +286,30 @@ def decide(pid, spec, m, t, wall, nshards, replay=None):
     return 0
 
 
+def repo_tests_with_monitors(rec, pid):
+    """Second execution source (thorough tier): the repository's own tests with the library-level monitors attached."""
+    import tempfile
+    fd, out = tempfile.mkstemp(suffix='.json')
+    os.close(fd)
+    env = dict(os.environ, VT_PYTEST_OUT=out, PYTHONPATH=os.pathsep.join([SRC, VERIF]), PYTHONDONTWRITEBYTECODE='1')
+    try:
+        p = subprocess.run([PY, '-m', 'pytest', '-q', '-p', 'no:cacheprovider', '-p', 'vt.pytest_monitors', '--timeout=900',
+                            '--ignore=tests/test_report_html.py'], cwd=REPO, env=env, capture_output=True, text=True, timeout=1800)
+        data = json.load(open(out))
+    except Exception as e:
+        rec.notes.append(f'repo-tests run unavailable: {type(e).__name__}: {e}')
+        return
+    finally:
+        if os.path.exists(out):
+            os.unlink(out)
+    for k, v in data['counts'].items():
+        if k.lower().startswith(pid.lower()):
+            rec.count('repo_tests:' + k, v)
+    for prop, key, msg in data['violations']:
+        if prop == pid:
+            rec.violation('repo-tests:' + key, 'while running the repository\'s own tests under the monitor: ' + msg, {'kind': 'repo-tests'})
+
+
 # ---------------------------------------------------------------------------------------------------
 # worker side
 
